@@ -54,6 +54,14 @@ Theorem C08_flush_spec :
     handle_smartsleep orc g nd = Ok (flushed g nd).
 Proof. exact flush_spec. Qed.
 
+(* the same as the sequence of calls: the node is stored with its queue emptied, then add_job_send
+   is called on each string in order (needs Inv only) *)
+Theorem C08_flush_calls :
+  forall orc g k nd, Inv orc g -> get_node g k = Some nd ->
+    handle_smartsleep orc g nd =
+    Ok (fold_left add_job_send (flush_strings (tab g) nd) (put_node g (woken nd))).
+Proof. exact handle_smartsleep_closed. Qed.
+
 Theorem C08_flushed_fields :
   forall orc g k nd, Inv orc g -> get_node g k = Some nd ->
     g_cf (flushed g nd) = g_cf g /\ g_ota (flushed g nd) = g_ota g /\ g_metric (flushed g nd) = g_metric g /\
@@ -433,6 +441,7 @@ Print Assumptions C08_flush_strings_def.
 Print Assumptions C08_desired_msgs_def.
 Print Assumptions C08_desired_msgs_membership.
 Print Assumptions C08_flush_spec.
+Print Assumptions C08_flush_calls.
 Print Assumptions C08_flushed_fields.
 Print Assumptions C08_woken_fields.
 Print Assumptions C08_flush_children_rel.
